@@ -291,7 +291,7 @@ struct Foo<'gc> { foo: i32, bar: f64, baz: &'static u32, quux: Gc<'gc, u32> }
         ("plain-ref", "fn p<'a, 'gc>(v: &'a Foo<'gc>) -> &'a Write<i32> { field!(v, Foo, foo) }"),
     ]
     for nm, fn in shapes:
-        add(f"field-{nm}", "field-macro", "attack" if nm.startswith("pre") or nm.startswith("post") else "misuse",
+        add(f"field-{nm}", "field-macro", "misuse" if nm == "wrong-type" else "attack",
             PRELUDE + foo + fn + "\nfn main() {}\n")
     add("field-use", "field-macro", "use", PRELUDE + foo +
         "fn p<'a, 'gc>(v: &'a Write<Foo<'gc>>) -> &'a Write<i32> { field!(v, Foo, foo) }\nfn main() {}\n")
